@@ -4,7 +4,7 @@ from __future__ import annotations
 import ast
 
 from ..core import AnalysisError, call_name, unparse, walk_no_nested
-from ..exprs import cmp_canon, conjuncts
+from ..exprs import cmp_canon, conjuncts, inline, single_defs
 from ..selftest import B, M
 from .common import F_BASE, F_BC, calls, cfg_of, construct, loc, short
 from .grouped import _flatten_conditions
@@ -40,7 +40,13 @@ def rule_summary_scope(ctx):
     R = "R-summary-scope"
     fi = ctx.repo.find_function(f"{F_BASE}::BaseDiscretizer.summary")
     cfg = cfg_of(ctx, fi)
-    emits = list(_emits(fi.node))
+    # the row sink: the local list that is turned into the summary frame (DataFrame(<sink>))
+    sink = "summaries"
+    for c in ast.walk(fi.node):
+        if isinstance(c, ast.Call) and call_name(c) == "DataFrame" and c.args and isinstance(c.args[0], ast.Name):
+            sink = c.args[0].id
+            break
+    emits = list(_emits(fi.node, sink))
     if not emits:
         raise AnalysisError("summary(): row sink `summaries` not found")
     for e in emits:
@@ -71,8 +77,9 @@ def rule_single_table(ctx):
     fi = ctx.repo.find_function(f"{F_BASE}::BaseDiscretizer.summary")
     cfg = cfg_of(ctx, fi)
     # the (value, label) pairs listed come from self.labels_per_values[feature]
-    loops = [n for n in walk_no_nested(fi.node) if isinstance(n, ast.For) and "labels_per_values[feature].items()" in unparse(n.iter)]
-    ok = len(loops) == 1 and unparse(loops[0].iter) == "self.labels_per_values[feature].items()"
+    loops = [n for n in walk_no_nested(fi.node) if isinstance(n, ast.For) and "labels_per_values[" in unparse(n.iter) and unparse(n.iter).endswith(".items()")]
+    outer = [unparse(l.target) for l in cfg.enclosing_loops(loops[0]) if isinstance(l, ast.For)] if loops else []
+    ok = len(loops) == 1 and any(unparse(loops[0].iter) == f"self.labels_per_values[{v}].items()" for v in outer)
     ctx.ob(R, construct(fi, "listed (value, label) pairs are self.labels_per_values[feature].items()"), ok, loc(fi, loops[0] if loops else None))
     srcs = {call_name(c) for c in ast.walk(fi.node) if isinstance(c, ast.Call) and "label" in call_name(c).lower()}
     other = {s for s in srcs if s not in ("_get_labels_per_values",)}
@@ -81,8 +88,10 @@ def rule_single_table(ctx):
     for d in lab:
         for k, v in zip(d.keys, d.values):
             if isinstance(k, ast.Constant) and k.value == "label":
-                t = unparse(v)
-                ok2 = ok2 and (t == "label" or t.startswith("self.labels_per_values[feature]"))
+                t = unparse(inline(fi.node, v, defs=single_defs(fi.node)))
+                # the label variable of the (value, label) loop, or a direct read of the fitted table
+                lv = {unparse(l.target.elts[1]) for l in loops if isinstance(l.target, ast.Tuple) and len(l.target.elts) == 2}
+                ok2 = ok2 and (t in lv or t == "label" or t.startswith("self.labels_per_values["))
     ctx.ob(R, construct(fi, "every 'label' cell is read from self.labels_per_values"), ok2 and not other and bool(lab), loc(fi),
            "" if (ok2 and not other) else f"other label sources: {sorted(other)}")
 
@@ -95,7 +104,13 @@ def rule_nan_flag_source(ctx):
     fi = ctx.repo.find_function(f"{F_BASE}::BaseDiscretizer.summary")
     bad = [n for n in ast.walk(fi.node) if isinstance(n, ast.Attribute) and n.attr == "dropna" and isinstance(n.value, ast.Name) and n.value.id == "self"]
     uses = [n for n in ast.walk(fi.node) if isinstance(n, ast.Subscript) and unparse(n.value) == "self.features_dropna"]
-    ok = not bad and bool(uses) and all(unparse(u.slice) == "feature" for u in uses)
+    cfg_s = cfg_of(ctx, fi)
+
+    def loop_vars(node):
+        return {unparse(l.target) for l in cfg_s.enclosing_loops(node) if isinstance(l, ast.For)}
+
+    # indexed by the feature being listed: the variable of an enclosing loop over features
+    ok = not bad and bool(uses) and all(unparse(u.slice) in loop_vars(u) for u in uses)
     ctx.ob(R, construct(fi, "missing values are listed according to self.features_dropna[feature], the flag transform uses"), ok, loc(fi, bad[0] if bad else None),
            "" if ok else "summary reads the constructor's global dropna: after update_discretizer groups the missing values of a feature, summary hides them while transform labels them")
     ft = ctx.repo.find_function(f"{F_BASE}::BaseDiscretizer.transform")
